@@ -8,7 +8,7 @@ import GqlModel.Errors
     pathrt  <path>                       → `ok <path>` for decPath (encPath p), or `E,<hex message>`
     pathenc <path>                       → hex of the JSON text of encPath p
     pathstr <path>                       → hex of Path.String()
-    f64int  <int>                        → indexOfNumber i  (int(float64(i)))
+    f64int  <int>                        → indexOfNumber i  (the index a JSON integer decodes to)
     errjson <hex message> <path> <locs> <ext>  → hex of the JSON text of encError, then ` ` and 1/0 for responseShape
     errstr  <hex message> <path> <locs> <ext>  → hex of Error()
 -/
